@@ -9,6 +9,9 @@
  *   cc    <path>                                         contents of a credential cache file
  * Nothing here knows the specification; the comparison is made by TLC (spec/mit/TraceMIT.tla). */
 #include <krb5.h>
+#include <gssapi/gssapi.h>
+#include <gssapi/gssapi_krb5.h>
+#include <gssapi/gssapi_ext.h>
 #include <stdio.h>
 #include <stdlib.h>
 #include <string.h>
@@ -27,6 +30,8 @@ static void puthex(const char *name, const unsigned char *b, size_t n) {
     for (size_t i = 0; i < n; i++) printf("%02x", b[i]);
     printf("\"");
 }
+
+static gss_ctx_id_t gss_ictx = GSS_C_NO_CONTEXT, gss_actx = GSS_C_NO_CONTEXT;
 
 int main(void) {
     krb5_context ctx;
@@ -107,6 +112,57 @@ int main(void) {
             if (ac) krb5_auth_con_free(ctx, ac);
             if (server) krb5_free_principal(ctx, server);
             if (!rc || kt) krb5_kt_close(ctx, kt);
+        } else if (!strcmp(tok[0], "gss") && nt == 5) {
+            /* gss <user@REALM> <password> <service name as host-based: service@host> <message> : log in, then establish a GSS-API context
+             * between an initiator (the user's credentials) and an acceptor (KRB5_KTNAME) in this process, and protect the message in both
+             * directions with gss_get_mic and gss_wrap (integrity only).  The contexts stay alive for "gssverify". */
+            krb5_principal me = NULL; krb5_creds tgt; krb5_ccache cc = NULL; krb5_get_init_creds_opt *opt = NULL; memset(&tgt, 0, sizeof tgt);
+            krb5_error_code rc = krb5_parse_name(ctx, tok[1], &me); int stage = 0;
+            if (!rc) rc = krb5_get_init_creds_opt_alloc(ctx, &opt);
+            if (!rc) { stage = 1; rc = krb5_get_init_creds_password(ctx, &tgt, me, tok[2], NULL, NULL, 0, NULL, opt); }
+            if (!rc) { stage = 2; rc = krb5_cc_default(ctx, &cc); }
+            if (!rc) rc = krb5_cc_initialize(ctx, cc, me);
+            if (!rc) rc = krb5_cc_store_cred(ctx, cc, &tgt);
+            OM_uint32 maj = 0, min = 0, amaj = 0, ret_flags = 0; gss_name_t target = GSS_C_NO_NAME;
+            gss_buffer_desc nb = {strlen(tok[3]), tok[3]}, itok = {0, NULL}, atok = {0, NULL};
+            if (!rc) { stage = 3; maj = gss_import_name(&min, &nb, GSS_C_NT_HOSTBASED_SERVICE, &target); if (GSS_ERROR(maj)) rc = -2; }
+            gss_ictx = GSS_C_NO_CONTEXT; gss_actx = GSS_C_NO_CONTEXT;
+            int rounds = 0;
+            while (!rc && rounds++ < 4) {
+                stage = 4;
+                maj = gss_init_sec_context(&min, GSS_C_NO_CREDENTIAL, &gss_ictx, target, (gss_OID)gss_mech_krb5, GSS_C_MUTUAL_FLAG | GSS_C_INTEG_FLAG, 0, GSS_C_NO_CHANNEL_BINDINGS,
+                                           atok.length ? &atok : GSS_C_NO_BUFFER, NULL, &itok, &ret_flags, NULL);
+                if (GSS_ERROR(maj)) { rc = -3; break; }
+                if (itok.length) {
+                    stage = 5;
+                    amaj = gss_accept_sec_context(&min, &gss_actx, GSS_C_NO_CREDENTIAL, &itok, GSS_C_NO_CHANNEL_BINDINGS, NULL, NULL, &atok, NULL, NULL, NULL);
+                    if (GSS_ERROR(amaj)) { rc = -4; break; }
+                }
+                if (maj == GSS_S_COMPLETE && amaj == GSS_S_COMPLETE) { stage = 6; break; }
+            }
+            printf("{\"rc\":%d,\"stage\":%d,\"min\":%u", (int)rc, stage, (unsigned)min);
+            if (!rc && stage == 6) {
+                gss_buffer_set_t ks = GSS_C_NO_BUFFER_SET;
+                maj = gss_inquire_sec_context_by_oid(&min, gss_ictx, GSS_C_INQ_SSPI_SESSION_KEY, &ks);
+                if (!GSS_ERROR(maj) && ks && ks->count >= 1) { printf(","); puthex("key", ks->elements[0].value, ks->elements[0].length); }
+                /* which key the per-message tokens use: with an acceptor subkey the flag AcceptorSubkey is set in them */
+                unsigned char *msg; int nm = unhex(tok[4], &msg); gss_buffer_desc mb = {nm, msg}, o = {0, NULL}; int conf = 0;
+                const char *names[4] = {"micI", "wrapI", "micA", "wrapA"}; gss_ctx_id_t cs[2] = {gss_ictx, gss_actx};
+                for (int k = 0; k < 4; k++) {
+                    if (k % 2 == 0) maj = gss_get_mic(&min, cs[k / 2], GSS_C_QOP_DEFAULT, &mb, &o); else maj = gss_wrap(&min, cs[k / 2], 0, GSS_C_QOP_DEFAULT, &mb, &conf, &o);
+                    printf(","); puthex(names[k], GSS_ERROR(maj) ? (unsigned char *)"" : o.value, GSS_ERROR(maj) ? 0 : o.length);
+                }
+            }
+            printf(",\"out\":\"\"}\n");
+        } else if (!strcmp(tok[0], "gssverify") && nt == 5) {
+            /* gssverify <by: I|A> <message> <MIC token> <Wrap token> : the named side of the established context verifies tokens the peer built */
+            gss_ctx_id_t c = tok[1][0] == 'I' ? gss_ictx : gss_actx;
+            unsigned char *msg, *mic, *wr; int nm = unhex(tok[2], &msg), nmic = unhex(tok[3], &mic), nw = unhex(tok[4], &wr);
+            gss_buffer_desc mb = {nm, msg}, tb = {nmic, mic}, wb = {nw, wr}, o = {0, NULL}; OM_uint32 min = 0, m1, m2; int conf = 0; gss_qop_t q = 0;
+            m1 = gss_verify_mic(&min, c, &mb, &tb, &q);
+            m2 = gss_unwrap(&min, c, &wb, &o, &conf, &q);
+            printf("{\"rc\":0,\"mic\":%u,\"unwrap\":%u,", (unsigned)m1, (unsigned)m2); puthex("plain", GSS_ERROR(m2) ? (unsigned char *)"" : o.value, GSS_ERROR(m2) ? 0 : o.length);
+            printf(",\"out\":\"\"}\n");
         } else if (!strcmp(tok[0], "pac") && nt == 4) {
             /* pac <PAC> <etype of the key> <key> : parse the PAC and verify its server signature with the service key */
             unsigned char *pb, *kb; int np = unhex(tok[1], &pb), nk = unhex(tok[3], &kb);
